@@ -1,7 +1,7 @@
 """C13 — rewards: only for signed blocks, proportional to stake; withdrawals exact."""
 from props import common
 
-THEOREMS = ["C13_holds", "C13_issuance", "C13_issuance_exact", "C13_withdraw_bounded", "C13_withdraw_exact", "C13_other_tx", "C13_end_block", "C13_commit"]
+THEOREMS = ["C13_holds_closed", "C13_holds_closed_mod", "C13_run_wf_reachable", "C13_holds", "C13_issuance", "C13_issuance_exact", "C13_withdraw_bounded", "C13_withdraw_exact", "C13_other_tx", "C13_end_block", "C13_commit"]
 
 
 def run(ctx):
